@@ -9,6 +9,9 @@ import os, sys, json, subprocess, time, shutil, glob, hashlib, re
 from concurrent.futures import ThreadPoolExecutor
 
 BATTERY = ["C01", "C02", "C03", "C06", "C07", "C08", "C09", "C10"]
+# configure variants (assertions, temporary-memory modes, fat, per-CPU builds) change every function, not only the mpn layer: they also run the
+# rational / float / number-theory / conversion / formatted-I/O properties (an --enable-assert build must not abort where the default build is right)
+BATTERY_CFG = BATTERY + ["C11", "C12", "C13", "C16", "C17", "C18"]
 CPUS = ["k8", "k10", "k102", "bulldozer", "piledriver", "bobcat", "core2", "penryn", "nehalem", "westmere", "sandybridge", "ivybridge", "haswell", "broadwell", "skylake", "atom", "netburst"]
 
 def tables(repo):
@@ -171,10 +174,11 @@ def run(chk, pid, tier, seed, replay):
                 print(f"HARNESS-FAULT property={pid}: cannot build {v} from {chk.REPO}: {err[-600:]}"); return 2
             built[v] = vdir
     cov["layers"]["tuning_tables"] = {"tables_total_in_tree": len(tables(chk.REPO)), "tables_run": tabs, "battery": props, "cases_per_property": cases}
-    cov["layers"]["build_options"] = {"configure_variants_run": cfgs, "battery": props, "cases_per_property": cases}
+    cov["layers"]["build_options"] = {"configure_variants_run": cfgs, "battery": BATTERY_CFG, "cases_per_property": cases}
     per_variant = {}
     for v in variants:
-        rc, st, rp, msg = battery(chk, v, built[v], props, seed, cases, scale, f"{tier}-seed{seed}")
+        vprops = [p for p in (BATTERY_CFG if v.startswith("cfg-") else BATTERY) if os.path.exists(os.path.join(chk.ROOT, "props", p + ".cc"))]
+        rc, st, rp, msg = battery(chk, v, built[v], vprops, seed, cases, scale, f"{tier}-seed{seed}")
         if rc == 1:
             print(f"VIOLATION property={pid} replay={rp}"); print("  " + msg)
             chk.write_evidence(pid, tier, seed, time.time() - t0, {"evaluations": total_eval + st["evaluations"] + 1, "distinct_nontrivial": total_distinct, "rule": "stopped at the first violation", "samples": [msg]}, 1, ASSUME)
